@@ -199,7 +199,7 @@ func rawLoadPackage(sys fs.FS, pkg string) (*token, error) {
 			continue
 		}
 		first := tree.Tokens[0]
-		if first.Symbol != "package" {
+		if first.Symbol != "package" || len(first.Tokens) == 0 {
 			return nil, fmt.Errorf("expected package in: %v", fname)
 		}
 		pkgs[first.Tokens[0].Text] = true
@@ -213,7 +213,7 @@ func rawLoadPackage(sys fs.FS, pkg string) (*token, error) {
 	}
 	tree := joinFiles(files)
 	for _, tok := range tree.Tokens {
-		if tok.Symbol == "package" && tok.Tokens[0].Text != "main" && tok.Tokens[0].Text != pkg {
+		if tok.Symbol == "package" && len(tok.Tokens) > 0 && tok.Tokens[0].Text != "main" && tok.Tokens[0].Text != pkg {
 			exp := symAtPos(tok.Pos, "(string)")
 			exp.Text = pkg
 			tok.Append(exp)
